@@ -220,6 +220,9 @@ impl StateMachine<'_> {
         }
 
         if !self.mode_info.is_empty() {
+            // The header is written directly to the writer: first flush lines of the
+            // previous file which have been painted but not yet emitted.
+            self.painter.emit()?;
             let format_label = |label: &str| {
                 if !label.is_empty() {
                     format!("{label} ")
@@ -253,6 +256,7 @@ impl StateMachine<'_> {
             && self.should_handle()
             && self.handled_diff_header_header_line_file_pair != self.current_file_pair
         {
+            self.painter.emit()?;
             self._handle_diff_header_header_line(self.source == Source::DiffUnified)?;
             self.handled_diff_header_header_line_file_pair
                 .clone_from(&self.current_file_pair);
